@@ -862,7 +862,10 @@ SPECS["C12"] = CheckSpec(
     rule="case = path built hop by hop with rtr_bgpsec_generate_signature (origination and every forwarding) over the "
          "C11 field-value space, NLRI lengths cycling over all values, both AFIs; each generated signature must parse "
          "as a DER ECDSA signature of exactly sig_len bytes, verify under the matching public key over the digest input "
-         "computed by the independent implementation, and the built path must validate VALID in the library; error "
+         "computed by the independent implementation, and the built path must validate VALID in the library - assembled "
+         "by the harness, assembled the way a router does it with the library's own list helpers (prepend a Secure_Path "
+         "segment, generate, prepend the returned segment; pop and put back), and as a copy assembled with the append "
+         "helpers and rtr_bgpsec_new_signature_seg; error "
          "inputs: every single-byte corruption (3 patterns) of the DER private key, every suite != 1, AFIs outside "
          "{1,2}, every wrong (path_len, sigs_len) pair <= 4",
     assumptions=["ECDSA nonces are random (not owned); verdicts do not depend on them",
